@@ -355,10 +355,10 @@ def main(rep):
                 found = True
                 break
             if exe_model and il != model.get(cid):
-                rep.violation("correspondence", {"case": cid, "script": script.split("\n"), "driver": "cfg", "implementation": il, "model": model.get(cid),
-                                                 "what": "implementation and model differ"}, found_input=False)
-                found = True
-                break
+                # a divergence is reported only if no monitor fires on any case (a concrete failing input wins)
+                rep.defer_divergence({"case": cid, "script": script.split("\n"), "driver": "cfg", "implementation": il, "model": model.get(cid),
+                                                 "what": "implementation and model differ"})
+                continue
             validated += 1
         if not found and impl.get("cnone") != [doc_line(doc_load([]), universe)]:
             rep.violation("config", {"case": "cnone", "script": scripts[-1][1].split("\n"), "driver": "cfg", "implementation": impl.get("cnone"),
